@@ -41,3 +41,50 @@ Theorem C06_other_instances_untouched :
   out_R D (frame_R D Fm Fg) s (exec D host listened maxdepth fuel depth ii s f is).
 Proof. exact exec_frame. Qed.
 Print Assumptions C06_other_instances_untouched.
+
+(* ================================================================ the call engines' call-boundary state
+   "the same function object … keeps behaving afterwards exactly as [one] that had not failed": the state a call engine
+   (one per api.Function) carries from one Call to the next, transcribed from callWithStack's deferred closure and
+   dispatch loop (compiler: execCtx.exitCode) and from callEngine.call / recoverOnCall (interpreter: len(stack),
+   len(frames)) in Engine/CallEngine.v. The native code, the interpreter loop and the Go callbacks are the environment:
+   the theorems hold for EVERY trace of their answers (any exit code sequence, any callback panicking with any value,
+   stack growth failing, the module closed underneath, listeners), any fuel. The correspondence run reads the real
+   fields after every call of every history on both engines. *)
+From Verif Require Import Engine.CallEngine Proofs.CallEngineP.
+
+(* whatever state the call engine was in and whatever happened during the call, it is left with ExitCodeOK *)
+Theorem C06_call_engine_reset_compiler :
+  forall fuel st tr st' e tr', c_call fuel st tr = (st', e, tr') -> e <> CStuck -> exit_code st' = EOK.
+Proof. exact c_call_resets. Qed.
+Print Assumptions C06_call_engine_reset_compiler.
+
+(* consequently, along ANY history of calls on one function object, each call returns what the same call returns on a
+   function object that has never been used *)
+Theorem C06_function_object_history_compiler :
+  forall fuel trs st, exit_code st = EOK -> ~ In CStuck (snd (c_history fuel st trs)) ->
+  snd (c_history fuel st trs) = map (fresh_outcome fuel) trs /\ exit_code (fst (c_history fuel st trs)) = EOK.
+Proof. exact c_history_as_fresh. Qed.
+Print Assumptions C06_function_object_history_compiler.
+
+Theorem C06_function_object_history_interpreter :
+  forall cs st, i_stack st = 0 -> i_frames st = 0 ->
+  snd (i_history st cs) = map (fun c => let '(np, nr, a, cl) := c in snd (i_call np nr i_fresh a cl)) cs /\
+  i_stack (fst (i_history st cs)) = 0 /\ i_frames (fst (i_history st cs)) = 0.
+Proof. exact i_history_as_fresh. Qed.
+Print Assumptions C06_function_object_history_interpreter.
+
+(* the error class of each canonical trace is the class it stands for (documented kinds: nil, trap k, stack overflow,
+   wrapped panic value, exit error with its code) *)
+Theorem C06_error_kinds :
+  forall cls, 0 <= cls -> (cls < 7 \/ (cls - 7) mod 100 = 0) -> cls_of (fresh_outcome 64 (canon cls)) = cls.
+Proof. exact canon_faithful. Qed.
+Print Assumptions C06_error_kinds.
+
+(* the reset is necessary: skipping it for exit errors (the shape of a seeded defect) leaves a stale code and makes a
+   later call that never leaves native code report the earlier exit *)
+Theorem C06_skipping_reset_refuted :
+  exists tr1 tr2 st1 e1 r1,
+    c_call_bad 64 c_fresh tr1 = (st1, e1, r1) /\ exit_code st1 <> EOK /\
+    snd (fst (c_call_bad 64 st1 tr2)) <> fresh_outcome 64 tr2.
+Proof. exact skipping_reset_refuted. Qed.
+Print Assumptions C06_skipping_reset_refuted.
